@@ -109,6 +109,39 @@ class Gen:
         if r.random() < 0.15:
             ops.append("run %d" % r.choice([1, 5 * NS, 10 * NS, 123456789012, 86400 * NS * 30]))
             cur = max(cur, int(ops[-1].split()[1]))
+        if r.random() < 0.07:
+            # far var-slot timers re-queued by advance() with the 0x7FFF s clamp active, then deleted / updated /
+            # left alone, slots reused, then time carried past every stand-in entry
+            self.count("scen:far-requeue")
+            far = []
+            for _ in range(r.randrange(1, 4)):
+                cb += 1
+                k = r.randrange(2, 6)
+                t = cur + k * 32767 * NS + r.randrange(-NS, 20000 * NS)
+                kind = r.choice(["add", "addmax", "addmax", "addmin"])
+                ops.append("%s %d %d" % (kind, t, cb))
+                keys[{"add": "F", "addmax": "M", "addmin": "N"}[kind]].append(len(ops) - 1)
+                far.append((kind, len(ops) - 1, t))
+                hint.append(t)
+            for _ in range(r.randrange(1, 3)):
+                cur = cur + r.randrange(1, 3) * 32767 * NS + r.randrange(0, 3000 * NS)
+                ops.append("run %d" % cur)
+            for kind, ix, t in far:
+                c2 = r.random()
+                if c2 < 0.6:
+                    ops.append("%s k%d" % ({"add": "del", "addmax": "delmax", "addmin": "delmin"}[kind], ix))
+                elif c2 < 0.8 and kind != "add":
+                    ops.append("%s k%d %d" % ({"addmax": "modmax", "addmin": "modmin"}[kind], ix, cur + r.randrange(0, 5) * 32767 * NS + r.randrange(0, 1000 * NS)))
+            for _ in range(r.randrange(0, 3)):
+                cb += 1
+                kind = r.choice(["add", "addmax", "addmin"])
+                t = cur + r.choice([5 * NS, 40000 * NS, 70000 * NS, 140000 * NS])
+                ops.append("%s %d %d" % (kind, t, cb))
+                keys[{"add": "F", "addmax": "M", "addmin": "N"}[kind]].append(len(ops) - 1)
+                hint.append(t)
+            if r.random() < 0.7:
+                cur = cur + r.randrange(1, 4) * 32767 * NS + r.randrange(0, 3000 * NS)
+                ops.append("run %d" % cur)
         while len(ops) < n_ops:
             c = r.random()
             idx = len(ops)
@@ -518,6 +551,11 @@ def run(prop, tier, seed):
         failed = vlib.coq_failed_files(audit["log"])
         if failed:
             problems.append("proof: files failing to compile: " + ", ".join(failed))
+    glue = None
+    if prop == "C19":
+        # Layer R decides the runtime clauses with an abstract timer rule; glue_fixed_timers proves that rule of this model
+        gprobs, glue = vlib.glue_audit("timers")
+        problems += ["proof: " + p for p in gprobs]
     # 2. builds
     okx, xlog = vlib.coq_build(["T/Extract.vo"])
     model_ok = True
@@ -593,8 +631,13 @@ def run(prop, tier, seed):
         b0 += bsz
         if outcome.disagree and n < 12000:
             n = 12000          # correspondence broken: escalate the search budget
-        if time.time() - t_start > (150 if tier == "quick" else 1100):
+        # time budget: the quick tier stops after 150 s on an intact tree; once a proof, the tie or the
+        # correspondence is broken the search for a failing input gets the thorough budget
+        searching = bool(problems or drift or outcome.disagree)
+        if time.time() - t_start > (150 if tier == "quick" and not searching else 1100):
             break
+        if searching and outcome.monfail.get(bit) and b0 >= 2000:
+            break          # a failing input for this property is in hand
     if outcome.disagree:
         problems.append("correspondence: real crate and model disagree in %d cases (first: %s op %d: real %r, model %r)" % ((len(outcome.disagree),) + outcome.disagree[0]))
     # 5. verdict
@@ -674,6 +717,7 @@ def run(prop, tier, seed):
         "distribution": dist, "builds": [b for b, _ in bins],
         "coqchk": ({"ok": chk["ok"], "axioms": chk["axioms"]} if chk else "thorough tier only"),
         "samples": sample_cases(all_cases), "proof_problems": problems, "drifted_functions": drift, "honest_wrap_replays": {k: v[1] for k, v in honest.items()}, "known_findings_reproduced": sorted(known_seen),
+        "cross_layer_glue": glue if glue else "audited by ./check C19 (timers) and ./check C17 (queues)",
         "explanation": "theorems about the Gallina model of src/timers/mod.rs (coq/T) + translator-regenerated arithmetic (coq/Gen) + correspondence of results and full internal state after every op, debug and release builds",
     }
     ev.assumptions = ["instants < 2^62 ns from t0; fewer than 2^31 timers pending", "histories outside the known classes GenWrap (F2) / SeqWrap (F3) / NearBoundaryVar (F6)",
